@@ -500,6 +500,40 @@ def vs3(*args: int, k: int = 2) -> int:
 class KV:
     def vk(self, a: int, b: int = 1, *args: int, **kw: int) -> int:
         return a
+from dataclasses import dataclass
+from typing import Any
+@pedantic_class
+class SA:
+    def __init__(self, x: int) -> None:
+        self.x = x
+    def __setattr__(self, name: str, value: int) -> None:
+        object.__setattr__(self, name, value)
+    def get(self) -> int:
+        return self.x
+@dataclass(frozen=True)
+@pedantic_class
+class FZ:
+    x: int
+    def double(self) -> int:
+        return 2 * self.x
+@pedantic_class
+class DA:
+    def __init__(self, x: int) -> None:
+        self.x = x
+    def __delattr__(self, name: str) -> None:
+        object.__delattr__(self, name)
+    def __getattr__(self, name: str) -> Any:
+        raise AttributeError(name)
+    def get(self) -> int:
+        return self.x
+@pedantic_class
+class GA:
+    def __init__(self, x: int) -> None:
+        self.x = x
+    def __getattribute__(self, name: str) -> Any:
+        return object.__getattribute__(self, name)
+    def get(self) -> int:
+        return self.x
 '''
 CORNER_CALLS = [('K.plain(self=k, x=1)', lambda m: m.K.plain(self=m.K(), x=1)), ('K().plain(x=1)', lambda m: m.K().plain(x=1)),
                 ('K.st(x=1)', lambda m: m.K.st(x=1)), ('K().st(x=1)', lambda m: m.K().st(x=1)),
@@ -508,7 +542,10 @@ CORNER_CALLS = [('K.plain(self=k, x=1)', lambda m: m.K.plain(self=m.K(), x=1)), 
                 ('Plain.m(self=p, x=1)', lambda m: m.Plain.m(self=m.Plain(), x=1)), ('Plain().m(x=1)', lambda m: m.Plain().m(x=1)),
                 ('Plain()(x=1)', lambda m: m.Plain()(x=1)), ('Plain()(1)', lambda m: m.Plain()(1)),
                 ('K().ds(a=1)', lambda m: m.K().ds(a=1)),
-                ('K().plain(x="s")', lambda m: m.K().plain(x='s')), ('doc_mentions(a="s")', lambda m: m.doc_mentions(a='s'))]
+                ('K().plain(x="s")', lambda m: m.K().plain(x='s')), ('doc_mentions(a="s")', lambda m: m.doc_mentions(a='s')),
+                # classes that define the attribute protocol themselves / are frozen: the wrapper's own bookkeeping must not go through it
+                ('SA(x=1).get()', lambda m: m.SA(x=1).get()), ('FZ(x=2).double()', lambda m: m.FZ(x=2).double()),
+                ('DA(x=1).get()', lambda m: m.DA(x=1).get()), ('GA(x=1).get()', lambda m: m.GA(x=1).get())]
 
 
 def _variadic_calls():
